@@ -28,8 +28,18 @@ TBind ==
 
 TTwice == /\ IsEv("BindTwice")
           /\ Adv(Chk(Tr[l].changed = 0, "C12", "binding-changed-on-second-resolution", l, << Tr[l].name >>))
+\* static part: what the code reachable from a family symbol actually uses must be within the family's declaration
+\* (SSE/SSE2/SSE3/SSSE3 are below every family's floor)
+Floor == {"sse3", "ssse3", "sse2", "sse"}
+TIsa ==
+  /\ IsEv("IsaUse")
+  /\ LET e == Tr[l]  needs == SetOf(e.needs)
+         allowed == FamilyRequires(e.fam) \cup Untested \cup Baseline(e.unit) \cup Floor
+                    \cup (IF "sse4_1" \in FamilyRequires(e.fam) \/ "avx" \in FamilyRequires(e.fam) THEN {"sse4_1", "sse4_2"} ELSE {})
+     IN Adv(Chk(e.fam \in KnownFamilies /\ needs \subseteq allowed, "C12", "family-code-uses-undeclared-instructions", l,
+                << e.target, e.fam, needs \ allowed >>))
 TSkip == l <= NEv /\ Tr[l].e = "Mark" /\ Adv(<< >>)
-TNext == TBind \/ TTwice \/ TSkip
+TNext == TBind \/ TTwice \/ TIsa \/ TSkip
 TSpec == TInit /\ [][TNext]_<< l, viol >>
 TraceAccepted == WriteResult /\ TLCGet(2) = NEv + 1
 =============================================================================
